@@ -74,7 +74,7 @@ type Finding struct {
 	Args        []string `json:"args,omitempty"` // anchored regexes, one per argument (missing = any)
 	Symmetric   bool     `json:"symmetric,omitempty"`
 	AnyArg      string   `json:"any_arg,omitempty"` // anchored regex that at least one argument must match
-	Rule        string   `json:"rule,omitempty"` // anchored regex on the deciding rule
+	Rule        string   `json:"rule,omitempty"`    // anchored regex on the deciding rule
 	What        string   `json:"what"`
 	Witness     *Witness `json:"witness,omitempty"`
 	WhyNotFixed string   `json:"why_not_fixed,omitempty"`
